@@ -1,6 +1,8 @@
 (* C05 - captured one-line helper functions are inlined faithfully.
-   Statements only; proofs in Proofs/CaptureProofs.v and Proofs/CaptureSem.v.
-   [res]/[resolve_called] model _resolve_called_lambdas with fixes F06, F07, FC2, FC4 applied; [helper_capval] is FC5. *)
+   Statements only; proofs in Proofs/CaptureProofs.v, Proofs/CaptureSem.v and Proofs/CaptureGen.v.
+   [res]/[resolve_called] model _resolve_called_lambdas with fixes F06, F07, FC2, FC4, F30, F31, F32 applied;
+   [helper_capval] is FC5.  A lambda with default values or parameter kinds other than plain positional is an [Other]
+   node decoded by [lam_view]/[lam_parts] (Model/Capture.v); a starred argument is an [Other "Starred;.."] node. *)
 From FA.Base Require Import PyAst Value Eval Traverse.
 From FA.Model Require Import Capture.
 From FA.Proofs Require Import Refine RenameSem CaptureProofs CaptureSem CaptureGen.
@@ -17,7 +19,12 @@ From FA.Proofs Require Import Refine RenameSem CaptureProofs CaptureSem CaptureG
    the reference semantics (DESIGN section 3.2/7: lambdas are not values): no parameter of a called lambda is used as
    the callee of a call by name inside its body.  [first_order_of_no_callee] gives a computable sufficient condition.
    Missing: higher-order helpers (a parameter that is itself called, `def apply_to(f, v): return f(v)`): outside
-   the reference semantics, covered by the correspondence and the value oracle (generator family "higher-order"). *)
+   the reference semantics, covered by the correspondence and the value oracle (generator family "higher-order").
+   Starred arguments and lambdas with default values have no value in the reference semantics ([Other] nodes, so the
+   theorem holds for them trivially): what the pass does with them is pinned by the structural theorems below
+   ([inline_leaves_starred_call], [inline_defaults_in_enclosing_scope], [inline_counts_every_binder]), by the
+   correspondence and by the value / well-formedness oracles (generator families "starred",
+   "defaults-of-staying-lambda", "binder-kinds"). *)
 Theorem inline_sem_partial :
   forall (B : backend) (ops : list string) e e' E v,
     first_order e -> resolve_called e = Ok e' ->
@@ -46,6 +53,72 @@ Theorem inline_leaves_by_name :
     exists args' kwv', e' = Call (Name h) args' kwn kwv' /\ length args' = length args /\ length kwv' = length kwv.
 Proof. exact call_stays_by_name. Qed.
 Print Assumptions inline_leaves_by_name.
+
+(* --- F30: a starred argument is not one positional argument ---
+   A called lambda (a helper's, or one written in the query) with a starred argument is left as a call - whatever the
+   number of arguments - its parts resolved as generic_visit does, the starred arguments still starred. *)
+Theorem inline_leaves_starred_call :
+  forall st ps b args kwn kwv,
+    existsb is_starred args = true ->
+    res st (Call (Lambda ps b) args kwn kwv) =
+    Call (Lambda ps (res (shadow ps :: st) b)) (map (res st) args) kwn (map (res st) kwv) /\
+    existsb is_starred (map (res st) args) = true.
+Proof. exact res_starred_call_stays. Qed.
+Print Assumptions inline_leaves_starred_call.
+
+(* the same when the called lambda has default values / other parameter kinds *)
+Theorem inline_leaves_starred_call_defaults :
+  forall st cls atoms cs args kwn kwv,
+    existsb is_starred args = true ->
+    res st (Call (Other cls atoms cs) args kwn kwv) =
+    Call (res st (Other cls atoms cs)) (map (res st) args) kwn (map (res st) kwv).
+Proof. exact res_starred_call_stays_defaults. Qed.
+Print Assumptions inline_leaves_starred_call_defaults.
+
+(* without a starred argument nothing changed: matching count, no keywords, no clash -> substituted *)
+Theorem inline_plain_call_substituted :
+  forall st ps b args kwv,
+    length ps = length args -> existsb is_starred args = false ->
+    overlaps (flat_map names_in (map (res st) args)) (inner_binders b) = false ->
+    res st (Call (Lambda ps b) args [] kwv) = res_inlined st ps b args.
+Proof. exact res_plain_call_inlined. Qed.
+Print Assumptions inline_plain_call_substituted.
+
+(* --- F31: default values of a lambda that stays are resolved in the enclosing scope ---
+   For a lambda with default values / other parameter kinds ([lam_parts] decodes it) the result keeps every ast.arg
+   node, replaces every default value [d] by [res st d] - [st] being the argument maps of the ENCLOSING scope, the
+   lambda's own parameters do not hide them - and resolves the body under every name the lambda binds. *)
+Theorem inline_defaults_in_enclosing_scope :
+  forall st cls atoms cs acls aatoms akids b lv,
+    lam_parts cls cs = Some (acls, aatoms, akids, b, lv) ->
+    res st (Other cls atoms cs) =
+    Other cls atoms [Other acls aatoms (map (on_defaults (res st)) akids); res (shadow (lv_params lv) :: st) b].
+Proof. exact res_lambda_defaults_outer. Qed.
+Print Assumptions inline_defaults_in_enclosing_scope.
+
+Theorem inline_default_sees_argument :
+  forall st cls atoms cs acls aatoms akids b lv x a,
+    lam_parts cls cs = Some (acls, aatoms, akids, b, lv) -> In (Name x) akids -> lookup_st x st = Some (Some a) ->
+    exists akids' b', res st (Other cls atoms cs) = Other cls atoms [Other acls aatoms akids'; b'] /\ In a akids'.
+Proof. exact res_default_sees_argument. Qed.
+Print Assumptions inline_default_sees_argument.
+
+(* --- F32: every parameter of a lambda that stays (keyword-only, positional-only, * and ** too) is an inner binder,
+   and a call whose resolved argument mentions one is left as a call --- *)
+Theorem inline_counts_every_binder :
+  forall cls atoms cs acls aatoms akids b lv,
+    lam_parts cls cs = Some (acls, aatoms, akids, b, lv) -> incl (lv_params lv) (inner_binders (Other cls atoms cs)).
+Proof. exact inner_binders_all_params. Qed.
+Print Assumptions inline_counts_every_binder.
+
+Theorem inline_stays_on_any_binder :
+  forall st ps cls atoms cs acls aatoms akids b lv args z,
+    lam_parts cls cs = Some (acls, aatoms, akids, b, lv) -> length ps = length args -> existsb is_starred args = false ->
+    In z (lv_params lv) -> In z (flat_map names_in (map (res st) args)) ->
+    res st (Call (Lambda ps (Other cls atoms cs)) args [] []) =
+    Call (Lambda ps (res (shadow ps :: st) (Other cls atoms cs))) (map (res st) args) [] [].
+Proof. exact res_call_stays_on_any_binder. Qed.
+Print Assumptions inline_stays_on_any_binder.
 
 (* ---------- Examples ---------- *)
 Definition B0 : backend := {| attr_sem := fun _ _ => None; meth_sem := fun _ _ _ _ => None; fun_sem := fun _ _ _ => None |}.
@@ -150,3 +223,151 @@ Example helper_of_helper_inlined :
   parse_callable (glob [("h4", h4)]) (Lambda ["e"] (Call (Name "h4") [Attr (Name "e") "z"] [] []))
   = Ok (Lambda ["e"] (BinOp BAdd (BinOp BSub (Attr (Name "e") "z") (Const (CInt 1))) (Const (CInt 7)))).
 Proof. vm_compute. reflexivity. Qed.
+
+(* ---------- F30, F31, F32: the encodings harness/bridge.py produces, witnesses, pre-fix behaviour ---------- *)
+Definition argn (x : string) : expr := Other "arg;arg=a;annotation=0;type_comment=0" [CStr x] [].
+Definition star (e : expr) : expr := Other "Starred;value=n" [] [e].
+(* lambda j, k=<d>: <b> *)
+Definition lam_j_k (d b : expr) : expr :=
+  Other "Lambda;args=n;body=n" []
+        [Other "arguments;posonlyargs=[];args=[nn];vararg=0;kwonlyargs=[];kw_defaults=[];kwarg=0;defaults=[n]" []
+               [argn "j"; argn "k"; d]; b].
+(* lambda j, *, s=<d>: <b> *)
+Definition lam_j_kwo_s (d b : expr) : expr :=
+  Other "Lambda;args=n;body=n" []
+        [Other "arguments;posonlyargs=[];args=[n];vararg=0;kwonlyargs=[n];kw_defaults=[n];kwarg=0;defaults=[]" []
+               [argn "j"; argn "s"; d]; b].
+
+(* [lam_view] reads bridge.py's layout: lambda j, /, k=k, *r, s=k - 1, **kw *)
+Example lam_view_decodes :
+  lam_view "arguments;posonlyargs=[n];args=[n];vararg=n;kwonlyargs=[n];kw_defaults=[n];kwarg=n;defaults=[n]"
+           [argn "j"; argn "k"; argn "r"; argn "s"; BinOp BSub (Name "k") (Const (CInt 1)); argn "kw"; Name "k"]
+  = Some {| lv_args := ["k"]; lv_params := ["j"; "k"; "r"; "s"; "kw"]; lv_simple := false |} /\
+  lam_view "arguments;posonlyargs=[];args=[nn];vararg=0;kwonlyargs=[];kw_defaults=[];kwarg=0;defaults=[n]"
+           [argn "j"; argn "k"; Name "k"]
+  = Some {| lv_args := ["j"; "k"]; lv_params := ["j"; "k"]; lv_simple := true |} /\
+  (* lambda a, b=1, *, c, d=2: the None entry of kw_defaults is an atom ("a"), not a node *)
+  lam_view "arguments;posonlyargs=[];args=[nn];vararg=0;kwonlyargs=[nn];kw_defaults=[an];kwarg=0;defaults=[n]"
+           [argn "a"; argn "b"; argn "c"; argn "d"; Const (CInt 2); Const (CInt 1)]
+  = Some {| lv_args := ["a"; "b"]; lv_params := ["a"; "b"; "c"; "d"]; lv_simple := false |}.
+Proof. repeat split; vm_compute; reflexivity. Qed.
+
+(* F30: def h(a): return a + 1 ; the query  lambda e: h( *e.xs)  records  lambda e: (lambda a: a + 1)( *e.xs) *)
+Example starred_helper_call_left :
+  let h := Lambda ["a"] (BinOp BAdd (Name "a") (Const (CInt 1))) in
+  existsb is_starred [star (Attr (Name "e") "xs")] = true /\
+  parse_callable (glob [("h", helper_capval (glob []) h)])
+    (Lambda ["e"] (Call (Name "h") [star (Attr (Name "e") "xs")] [] []))
+  = Ok (Lambda ["e"] (Call h [star (Attr (Name "e") "xs")] [] [])).
+Proof. split; vm_compute; reflexivity. Qed.
+
+(* h(e.a, *e.rest), and a directly called lambda with default values: left; the starred operand itself is resolved *)
+Example starred_other_shapes_left :
+  let h2 := Lambda ["a"; "b"] (BinOp BSub (Name "a") (Name "b")) in
+  res [] (Call h2 [Attr (Name "e") "a"; star (Attr (Name "e") "rest")] [] [])
+  = Call h2 [Attr (Name "e") "a"; star (Attr (Name "e") "rest")] [] [] /\
+  res [] (Call (lam_j_k (Const (CInt 2)) (BinOp BSub (Name "j") (Name "k"))) [Attr (Name "e") "a"; star (Attr (Name "e") "xs")] [] [])
+  = Call (lam_j_k (Const (CInt 2)) (BinOp BSub (Name "j") (Name "k"))) [Attr (Name "e") "a"; star (Attr (Name "e") "xs")] [] [] /\
+  res [] (Call (Lambda ["q"] (Call (Lambda ["a"] (BinOp BAdd (Name "a") (Const (CInt 1)))) [star (List [Name "q"])] [] []))
+               [Attr (Name "e") "a"] [] [])
+  = Call (Lambda ["a"] (BinOp BAdd (Name "a") (Const (CInt 1)))) [star (List [Attr (Name "e") "a"])] [] [].
+Proof. repeat split; vm_compute; reflexivity. Qed.
+
+(* the pass before 6fb93bf counted `*e.xs` as one positional argument and substituted: the Starred node lands in
+   operand position, `*e.xs + 1`, which is not a Python expression *)
+Example starred_argument_substituted_pinned_refuted :
+  exists ps b args,
+    length ps = length args /\ existsb is_starred args = true /\
+    res_inlined [] ps b args = BinOp BAdd (star (Attr (Name "e") "xs")) (Const (CInt 1)) /\
+    res [] (Call (Lambda ps b) args [] []) = Call (Lambda ps b) args [] [].
+Proof.
+  exists ["a"], (BinOp BAdd (Name "a") (Const (CInt 1))), [star (Attr (Name "e") "xs")].
+  repeat split; vm_compute; reflexivity.
+Qed.
+
+(* F31: def mk(k): return lambda j, k=k: j + k ; lambda e: mk(e.off)  records  lambda e: lambda j, k=e.off: j + k *)
+Example default_of_returned_lambda_resolved :
+  let mk := Lambda ["k"] (lam_j_k (Name "k") (BinOp BAdd (Name "j") (Name "k"))) in
+  parse_callable (glob [("mk", helper_capval (glob []) mk)])
+    (Lambda ["e"] (Call (Name "mk") [Attr (Name "e") "off"] [] []))
+  = Ok (Lambda ["e"] (lam_j_k (Attr (Name "e") "off") (BinOp BAdd (Name "j") (Name "k")))).
+Proof. vm_compute. reflexivity. Qed.
+
+(* keyword-only default `lambda j, *, s=k + 1: j * s`; a default inside a lambda that is itself inlined away *)
+Example defaults_other_shapes :
+  res [[("k", Some (Attr (Name "e") "off"))]]
+      (lam_j_kwo_s (BinOp BAdd (Name "k") (Const (CInt 1))) (BinOp BMult (Name "j") (Name "s")))
+  = lam_j_kwo_s (BinOp BAdd (Attr (Name "e") "off") (Const (CInt 1))) (BinOp BMult (Name "j") (Name "s")) /\
+  (* (lambda q, r=k: q + r)(1) stays (one argument, two parameters), its default sees k; (..)(k, 2) is inlined *)
+  res [[("k", Some (Attr (Name "e") "off"))]]
+      (Call (Other "Lambda;args=n;body=n" []
+                   [Other "arguments;posonlyargs=[];args=[nn];vararg=0;kwonlyargs=[];kw_defaults=[];kwarg=0;defaults=[n]" []
+                          [argn "q"; argn "r"; Name "k"]; BinOp BAdd (Name "q") (Name "r")]) [Const (CInt 1)] [] [])
+  = Call (Other "Lambda;args=n;body=n" []
+                [Other "arguments;posonlyargs=[];args=[nn];vararg=0;kwonlyargs=[];kw_defaults=[];kwarg=0;defaults=[n]" []
+                       [argn "q"; argn "r"; Attr (Name "e") "off"]; BinOp BAdd (Name "q") (Name "r")]) [Const (CInt 1)] [] [] /\
+  res [[("k", Some (Attr (Name "e") "off"))]]
+      (Call (Other "Lambda;args=n;body=n" []
+                   [Other "arguments;posonlyargs=[];args=[nn];vararg=0;kwonlyargs=[];kw_defaults=[];kwarg=0;defaults=[n]" []
+                          [argn "q"; argn "r"; Name "k"]; BinOp BAdd (Name "q") (Name "r")]) [Name "k"; Const (CInt 2)] [] [])
+  = BinOp BAdd (Attr (Name "e") "off") (Const (CInt 2)).
+Proof. repeat split; vm_compute; reflexivity. Qed.
+
+(* the hypotheses of inline_defaults_in_enclosing_scope / inline_default_sees_argument are met by the witness *)
+Example defaults_theorem_applies :
+  let arguments := "arguments;posonlyargs=[];args=[nn];vararg=0;kwonlyargs=[];kw_defaults=[];kwarg=0;defaults=[n]" in
+  lam_parts "Lambda;args=n;body=n" [Other arguments [] [argn "j"; argn "k"; Name "k"]; BinOp BAdd (Name "j") (Name "k")]
+  = Some (arguments, [], [argn "j"; argn "k"; Name "k"], BinOp BAdd (Name "j") (Name "k"),
+          {| lv_args := ["j"; "k"]; lv_params := ["j"; "k"]; lv_simple := true |}) /\
+  In (Name "k") [argn "j"; argn "k"; Name "k"] /\
+  lookup_st "k" [[("k", Some (Attr (Name "e") "off"))]] = Some (Some (Attr (Name "e") "off")).
+Proof. split; [vm_compute; reflexivity | split; [right; right; left; reflexivity | reflexivity]]. Qed.
+
+(* visit_Lambda before a7148b7 pushed the lambda's parameters first: the default `k` of `lambda j, k=k: j + k` was hidden
+   by the parameter `k` and stayed a free name *)
+Example default_hidden_by_own_parameter_pinned_refuted :
+  exists st cls atoms acls aatoms akids b lv,
+    lam_parts cls [Other acls aatoms akids; b] = Some (acls, aatoms, akids, b, lv) /\
+    res_lambda_pinned st cls atoms acls aatoms akids b lv = lam_j_k (Name "k") (BinOp BAdd (Name "j") (Name "k")) /\
+    res st (Other cls atoms [Other acls aatoms akids; b]) = lam_j_k (Attr (Name "e") "off") (BinOp BAdd (Name "j") (Name "k")).
+Proof.
+  exists [[("k", Some (Attr (Name "e") "off"))]], "Lambda;args=n;body=n", [],
+         "arguments;posonlyargs=[];args=[nn];vararg=0;kwonlyargs=[];kw_defaults=[];kwarg=0;defaults=[n]", [],
+         [argn "j"; argn "k"; Name "k"], (BinOp BAdd (Name "j") (Name "k")),
+         {| lv_args := ["j"; "k"]; lv_params := ["j"; "k"]; lv_simple := true |}.
+  repeat split; vm_compute; reflexivity.
+Qed.
+
+(* F32: lambda s: (lambda k: lambda j, *, s=2: k + s + j)(s.off) - the argument mentions `s`, the lambda that stays
+   binds `s` keyword-only: the call is left *)
+Example keyword_only_binder_stops_substitution :
+  let inner := lam_j_kwo_s (Const (CInt 2)) (BinOp BAdd (BinOp BAdd (Name "k") (Name "s")) (Name "j")) in
+  inner_binders inner = ["j"; "s"] /\
+  parse_callable (glob []) (Lambda ["s"] (Call (Lambda ["k"] inner) [Attr (Name "s") "off"] [] []))
+  = Ok (Lambda ["s"] (Call (Lambda ["k"] inner) [Attr (Name "s") "off"] [] [])) /\
+  (* `*s`: lambda s: (lambda k: lambda *s: k)(s.off) *)
+  (let vs := Other "Lambda;args=n;body=n" []
+                   [Other "arguments;posonlyargs=[];args=[];vararg=n;kwonlyargs=[];kw_defaults=[];kwarg=0;defaults=[]" [] [argn "s"];
+                    Name "k"] in
+   res [] (Call (Lambda ["k"] vs) [Attr (Name "s") "off"] [] []) = Call (Lambda ["k"] vs) [Attr (Name "s") "off"] [] []) /\
+  (* with another argument name the same call is inlined *)
+  res [] (Call (Lambda ["k"] inner) [Attr (Name "e") "off"] [] [])
+  = lam_j_kwo_s (Const (CInt 2)) (BinOp BAdd (BinOp BAdd (Attr (Name "e") "off") (Name "s")) (Name "j")).
+Proof. repeat split; vm_compute; reflexivity. Qed.
+
+(* _inner_binders before cb95368 counted the plain positional parameters only ([lam_bound_pinned]): `s` was missed, the
+   bail-out test did not fire and the substitution captured the query's `s`: lambda j, *, s=2: s.off + s + j *)
+Example keyword_only_binder_missed_pinned_refuted :
+  exists cls cs ps args,
+    lam_bound_pinned cls cs = ["j"] /\ lam_bound cls cs = ["j"; "s"] /\
+    overlaps (flat_map names_in args) (lam_bound_pinned cls cs ++ flat_map inner_binders cs) = false /\
+    overlaps (flat_map names_in args) (inner_binders (Other cls [] cs)) = true /\
+    res_inlined [] ps (Other cls [] cs) args
+    = lam_j_kwo_s (Const (CInt 2)) (BinOp BAdd (BinOp BAdd (Attr (Name "s") "off") (Name "s")) (Name "j")).
+Proof.
+  exists "Lambda;args=n;body=n",
+         [Other "arguments;posonlyargs=[];args=[n];vararg=0;kwonlyargs=[n];kw_defaults=[n];kwarg=0;defaults=[]" []
+                [argn "j"; argn "s"; Const (CInt 2)]; BinOp BAdd (BinOp BAdd (Name "k") (Name "s")) (Name "j")],
+         ["k"], [Attr (Name "s") "off"].
+  repeat split; vm_compute; reflexivity.
+Qed.
